@@ -1,10 +1,12 @@
 """C18 - HTML-based contrib renderers reproduce HtmlRenderer's output on documents that do not use their extension."""
+import re
+
 from .. import mt, tree, workloads
 
 ID = 'C18'
 LEVEL = 'exploration'
 ASSUMPTIONS = [
-    'side conditions are taken conservatively: GithubWiki skips any text containing "[[", MathJax any text containing "$", Pygments '
+    'side conditions are taken conservatively: GithubWiki skips any text with "[[", "|" and "]]" in that order on one line, MathJax any text containing "$", Pygments '
     'any document whose parsed tree (under the same options) contains a BlockCode/CodeFence token',
     'the MathJax script line is the renderer\'s own mathjax_src attribute and is removed exactly once from the end',
 ]
@@ -14,9 +16,13 @@ OPTS = [dict(html_escape_double_quotes=a, html_escape_single_quotes=b, process_h
 CONTRIB = ('Toc', 'GithubWiki', 'MathJax', 'Pygments')
 
 
+WIKI_LINK = re.compile(r'\[\[[^\n]*\|[^\n]*\]\]')       # (own, slightly wider copy of the extension's shape)
+
+
 def eligible(rname, text, opts):
     if rname == 'GithubWiki':
-        return '[[' not in text
+        # the extension is '[[text|target]]' on one line; doubled brackets without a pipe are ordinary CommonMark
+        return WIKI_LINK.search(text) is None
     if rname == 'MathJax':
         return '$' not in text
     if rname == 'Pygments':
@@ -97,6 +103,10 @@ PINNED = ['[a](http://x/y#z%20q)\n<http://x/%25#f>\n[r]\n\n[r]: /u%C3%A9#frag\n'
           'a <b>raw</b> c\n\n<div>\nblock\n</div>\n', '# h *e* `c`\n\n## h2\n', '~~s~~ | a |\n|---|\n| b |\n', 'a [b](u "t") ![i](s "t")\n']
 
 
+DOUBLE_BRACKETS = ['See [[Home]]\n', '[[foo]]\n\n[foo]: /url\n', '[[inner]](/outer)\n', 'x[[1]] and m[[i]][[j]]\n', '# [[t]]\n', '[[a]] | [[b]]\n', '[[a\n|b]]\n',
+                   '| [[c]] |\n|---|\n| [[d]] |\n', '![[alt]](/s)\n', '[[ ]] [[]] [[x] ]\n', '- [[item]]\n> [[quote]]\n']
+
+
 def run(ctx):
     sz = SIZES[ctx.tier]
     rng = ctx.rng
@@ -120,6 +130,10 @@ def run(ctx):
             k += 1
             if k % ctx.nshards == ctx.shard:
                 check(ctx, shape.replace('%s', edge), OPTS[k % len(OPTS)], 'edges')
+    # doubled brackets that are not the wiki extension (no pipe): references, links and literal brackets as CommonMark reads them
+    for i, w in enumerate(DOUBLE_BRACKETS):
+        if i % ctx.nshards == ctx.shard:
+            check(ctx, w, OPTS[i % len(OPTS)], 'double-brackets')
     try:
         from .. import gen
     except ImportError:
